@@ -49,6 +49,9 @@ type FakeGS struct {
 	CancelErr  error
 	// Stall, when >0, makes Cancel/Pause/Unpause take that long (virtual time)
 	Stall time.Duration
+	// BeforeHook, when set, runs inside Request right before the outgoing-request hook
+	// (lets a workload place another operation exactly there)
+	BeforeHook func()
 
 	OutgoingRequestHook               graphsync.OnOutgoingRequestHook
 	IncomingBlockHook                 graphsync.OnIncomingBlockHook
@@ -101,7 +104,11 @@ func (f *FakeGS) Request(ctx context.Context, p peer.ID, root ipld.Link, selecto
 	f.mu.Lock()
 	f.reqs[id] = rq
 	hook := f.OutgoingRequestHook
+	before := f.BeforeHook
 	f.mu.Unlock()
+	if before != nil {
+		before()
+	}
 	if hook != nil {
 		hook(p, testharness.NewFakeRequest(id, c.Exts, graphsync.RequestTypeNew), &testharness.FakeOutgoingRequestHookActions{})
 	}
